@@ -1,12 +1,14 @@
 (* C08 — Vector types behave like std Vec on every operation sequence.
    The modelled operations compute the std list functions and panic exactly on the out-of-range
-   arguments.  PARTIAL: capacity clauses (capacity >= len and >= promise, no reallocation within
-   the promise, fixed vectors never reallocate, unlimited ZST capacity) and the operations not
-   modelled (splice, map, into_flattened, shrink*, into_* conversions) are checked on the
+   arguments.  The capacity clauses (capacity >= len and >= promise, no reallocation within the
+   promise, fixed vectors never reallocate) are proved for BumpVec / FixedBumpVec / MutBumpVec(Rev) over the
+   capacity model VecCap.v.  PARTIAL: the unlimited ZST capacity and
+   the operations not modelled (map, into_flattened, into_* conversions) are checked on the
    implementation against std::vec::Vec in lock-step only. *)
-From Coq Require Import List Arith.
-From BS Require Import Colls CollsProofs.
+From Coq Require Import List Arith ZArith.
+From BS Require Import Word VecCap VecCapProofs Colls CollsProofs.
 Import ListNotations.
+Close Scope Z_scope.
 
 Theorem C08_truncate_spec : forall dp l n, final (op_truncate dp l n) = firstn n l.
 Proof. exact truncate_spec. Qed.
@@ -54,6 +56,89 @@ Proof. exact splice_spec. Qed.
 Theorem C08_into_iter_leaves_nothing : forall dp l kf kb, final (op_into_iter dp l kf kb) = [].
 Proof. exact into_iter_leaves_nothing. Qed.
 
+(* ---- capacity (VecCap.v): Z-valued lengths and capacities, `grant` = the allocator's answer,
+   `got` = the capacity a MutBumpVec(Rev) is handed (the rest of the chunk; 0 for BumpVec) *)
+Open Scope Z_scope.
+
+(* capacity >= length, and the buffer a legal allocation, after every operation; an operation that
+   fails changes neither *)
+Theorem C08_capacity_invariant_step :
+  forall fixed sz al s o grant shrunk got,
+  elem_ok sz al -> vinv sz al s -> got_ok sz got -> vop_ok o ->
+  let '(s', out) := vstep fixed sz al s o grant shrunk got in
+  vinv sz al s' /\ (vo_err out <> None -> s' = s).
+Proof. exact vstep_inv. Qed.
+
+Theorem C08_capacity_invariant_reachable :
+  forall fixed sz al xs s,
+  elem_ok sz al -> vinv sz al s -> Forall (step_ok sz) xs -> vinv sz al (vrun fixed sz al s xs).
+Proof. exact vrun_inv. Qed.
+
+Theorem C08_reserve_keeps_its_promise :
+  forall sz al s n grant shrunk got (exact : bool),
+  elem_ok sz al -> vinv sz al s -> got_ok sz got -> 0 <= n ->
+  let '(s', out) := vstep false sz al s (if exact then VReserveExact n else VReserve n) grant shrunk got in
+  vo_err out = None -> n <= vcap s' - vlen s' /\ vlen s' = vlen s /\ vcap s <= vcap s'.
+Proof. exact reserve_promise. Qed.
+
+Theorem C08_with_capacity_spec :
+  forall sz al c grant got,
+  elem_ok sz al -> got_ok sz got -> 0 <= c ->
+  let '(s, out) := with_capacity sz al c grant got in
+  (vo_err out = None -> vinv sz al s /\ vlen s = 0 /\ c <= vcap s /\ (got = 0 -> vcap s = c)) /\ (vo_err out <> None -> s = mkV 0 0).
+Proof. exact with_capacity_spec. Qed.
+
+(* while the promise suffices: no allocator call, no failure, same capacity (the buffer stays) *)
+Theorem C08_no_reallocation_while_room :
+  forall fixed sz al s o grant shrunk got n,
+  elem_ok sz al -> vinv sz al s ->
+  (o = VReserve n \/ o = VReserveExact n \/ o = VExtend n \/ (o = VPush /\ n = 1)) -> 0 <= n ->
+  n <= vcap s - vlen s ->
+  let '(s', out) := vstep fixed sz al s o grant shrunk got in
+  vo_err out = None /\ vo_asked out = false /\ vcap s' = vcap s.
+Proof. exact enough_room_no_allocator_call. Qed.
+
+Theorem C08_promise_window :
+  forall sz al k s,
+  elem_ok sz al -> vinv sz al s -> Z.of_nat k <= vcap s - vlen s ->
+  let s' := vrun false sz al s (pushes k) in
+  vcap s' = vcap s /\ vlen s' = vlen s + Z.of_nat k.
+Proof. exact promise_window. Qed.
+
+Theorem C08_growing_push_doubles :
+  forall sz al s grant shrunk got,
+  elem_ok sz al -> vinv sz al s -> got_ok sz got -> vlen s = vcap s ->
+  let '(s', out) := vstep false sz al s VPush grant shrunk got in
+  vo_err out = None -> 2 * vcap s <= vcap s' /\ min_non_zero_cap sz <= vcap s' /\ vlen s' = vlen s + 1.
+Proof. exact growing_push_doubles. Qed.
+
+(* BumpVec: reserve_exact that has to grow ends with exactly len + n *)
+Theorem C08_reserve_exact_is_exact :
+  forall sz al s n grant shrunk,
+  elem_ok sz al -> vinv sz al s -> 0 <= n -> vcap s - vlen s < n ->
+  let '(s', out) := vstep false sz al s (VReserveExact n) grant shrunk 0 in
+  vo_err out = None -> vcap s' = vlen s + n.
+Proof. exact reserve_exact_is_exact. Qed.
+
+Theorem C08_fixed_never_reallocates :
+  forall sz al s o grant shrunk got,
+  let '(s', out) := vstep true sz al s o grant shrunk got in
+  vcap s' = vcap s /\ vo_asked out = false.
+Proof. exact fixed_never_reallocates. Qed.
+
+Theorem C08_fixed_push_fails_iff_full :
+  forall sz al s grant shrunk got,
+  vinv sz al s ->
+  (vo_err (snd (vstep true sz al s VPush grant shrunk got)) <> None <-> vlen s = vcap s).
+Proof. exact fixed_push_fails_iff_full. Qed.
+
+Theorem C08_shrink_to_bounds :
+  forall sz al s m grant shrunk got,
+  vinv sz al s ->
+  let s' := fst (vstep false sz al s (VShrinkTo m) grant shrunk got) in
+  vlen s' = vlen s /\ vlen s <= vcap s' <= vcap s /\ Z.min (vcap s) m <= vcap s'.
+Proof. exact shrink_to_bounds. Qed.
+
 Print Assumptions C08_truncate_spec.
 Print Assumptions C08_remove_spec.
 Print Assumptions C08_remove_panics_iff.
@@ -65,3 +150,14 @@ Print Assumptions C08_extract_if_spec.
 Print Assumptions C08_split_off_panics_iff.
 Print Assumptions C08_splice_spec.
 Print Assumptions C08_into_iter_leaves_nothing.
+Print Assumptions C08_capacity_invariant_step.
+Print Assumptions C08_capacity_invariant_reachable.
+Print Assumptions C08_reserve_keeps_its_promise.
+Print Assumptions C08_with_capacity_spec.
+Print Assumptions C08_no_reallocation_while_room.
+Print Assumptions C08_promise_window.
+Print Assumptions C08_growing_push_doubles.
+Print Assumptions C08_reserve_exact_is_exact.
+Print Assumptions C08_fixed_never_reallocates.
+Print Assumptions C08_fixed_push_fails_iff_full.
+Print Assumptions C08_shrink_to_bounds.
